@@ -1443,6 +1443,43 @@ class Interp:
                 if not self.set_add(out_, x):
                     return Unknown("set comprehension: equality of two elements not decided")
             return out_
+        if isinstance(e, ast.DictComp) and len(e.generators) == 1 and not e.generators[0].is_async:
+            # {k: v for x in xs if ...}: followed element by element only (a run-local table)
+            g_ = e.generators[0]
+            it_ = self.eval(g_.iter, state, rel)
+            if isinstance(it_, GenV):
+                it_ = self.materialise(it_, state)
+            items_ = self.concrete_items(it_)
+            if items_ is None:
+                return Unknown("dict comprehension over a sequence that is not known element by element")
+            out_m = MapV({})
+            saved_d = {n.id: state.env.get(n.id, _MISSING) for n in ast.walk(g_.target) if isinstance(n, ast.Name)}
+            try:
+                for item in items_:
+                    self.assign(g_.target, item, state, rel)
+                    keep = True
+                    for cond in g_.ifs:
+                        c_ = self.eval(cond, state, rel)
+                        if isinstance(c_, Lin) and c_.is_const():
+                            c_ = c_.const != 0
+                        if not isinstance(c_, bool):
+                            return Unknown("dict comprehension filter not decided element by element")
+                        if not c_:
+                            keep = False
+                            break
+                    if not keep:
+                        continue
+                    key_ = self.key_for(out_m, self.eval(e.key, state, rel))
+                    if key_ is _MISSING:
+                        return Unknown("dict comprehension: equality of two keys not decided")
+                    out_m.entries[key_] = self.eval(e.value, state, rel)
+                return out_m
+            finally:
+                for k, v in saved_d.items():
+                    if v is _MISSING:
+                        state.env.pop(k, None)
+                    else:
+                        state.env[k] = v
         if isinstance(e, ast.GeneratorExp):
             return GenV(e, self.eval(e.generators[0].iter, state, rel), rel)
         if isinstance(e, ast.Lambda):
@@ -2932,8 +2969,15 @@ class Interp:
                     return ListV([])
                 b = Sym(f"s{next(self.fresh)}", 0, n - 1)
                 return ListV([Seg(Lin.of(b) + a.lo.const, ((b, n),))])
+            if isinstance(a, ListV) and a.unordered and len(a.segs) > 1 and self.set_order is not None and not a.unknown \
+                    and not any(sg.binders for sg in a.segs):
+                # list(a_set): a list in the set's iteration order (scenario device: the run is repeated with the opposite order)
+                self.set_iterations += 1
+                segs_ = [Seg(s.elem, s.binders) for s in a.segs]
+                return ListV(segs_ if self.set_order == "insertion" else list(reversed(segs_)))
             if isinstance(a, ListV):
-                return ListV([Seg(s.elem, s.binders) for s in a.segs], a.unknown, list(a.stores), a.alloc_len, a.alloc_elem, a.unordered)
+                return ListV([Seg(s.elem, s.binders) for s in a.segs], a.unknown, list(a.stores), a.alloc_len, a.alloc_elem,
+                             a.unordered and len(a.segs) > 1)
             if isinstance(a, TableV):
                 return a
             return Unknown("list()")
